@@ -21,9 +21,11 @@ TRUSTED = [
 
 class Plan:
     def __init__(self, prop, models, extra=None, level="model_checking", race=False, rule="", assumptions=None,
-                 engine="http", backends=None):
+                 engine="http", backends=None, rows_to_scenarios=None, post=None):
         self.prop, self.models, self.extra, self.level, self.race = prop, models, extra, level, race
         self.rule, self.assumptions, self.engine, self.backends = rule, assumptions or TRUSTED, engine, backends
+        self.rows_to_scenarios = rows_to_scenarios
+        self.post = post
 
 
 def mc(module, tag, invariants=("NoViolation",), export=True, replay_cap=None, **consts):
@@ -65,10 +67,129 @@ HIST_RULE = ("behaviours = every history of the MC_hist families named in model_
              "into the real transport (quick: stratified sample), plus seeded random / periodic histories; non-trivial = the "
              "antecedent of one of this property's monitors is true in a recorded trace state (counted by TLC)")
 
+def render_uri(u):
+    path = "" if not u["path"] else "/" + "/".join(u["path"])
+    q_ = "" if u["query"] == "NONE" else "?" + u["query"]
+    return (u["scheme"] + "://" + u["user"] + u["host"] + u["port"] + path + q_ + u["frag"]).replace("RAWE9", "\u00e9")
+
+
+def uri_models(tier):
+    return [mc("Uri", "uri", invariants=("KeyExact", "NFIdempotent"), Defects="{}", Tier=q(tier), Export="TRUE")]
+
+
+METHOD_SHAPES = [("GET", 0, "HEAD", 0), ("GET", 0, "GET", 1), ("GET", 0, "POST", 0), ("HEAD", 0, "GET", 0), ("POST", 0, "GET", 0),
+                 ("GET", 1, "GET", 0), ("GET", 0, "PUT", 0), ("OPTIONS", 0, "GET", 0), ("GET", 0, "X-CUSTOM", 0), ("GET", 1, "GET", 1)]
+
+
+def uri_scenarios(rows, tier, seed):
+    """store a response for render(a), then request render(b)"""
+    r = random.Random(seed * 2654435761 + 9)
+    cap = 2500 if tier == "quick" else 10 ** 9
+    if len(rows) > cap:
+        eq = [x for x in rows if x["equiv"]]
+        ne = [x for x in rows if not x["equiv"]]
+        r.shuffle(eq)
+        r.shuffle(ne)
+        rows = eq[:cap // 2] + ne[:cap - min(len(eq), cap // 2)]
+    out = []
+    a_ok = gen.ans(ccp=1, ma=100, etag=1)
+    for i, x in enumerate(rows):
+        ua, ub = render_uri(x["a"]), render_uri(x["b"])
+        steps = [{"op": "req", "rq": gen.rq(u=0, url=ua), "ans": [a_ok]},
+                 {"op": "tick", "d": 2},
+                 {"op": "req", "rq": gen.rq(u=0 if x["equiv"] else 1, url=ub, ugap=1 if x["gap"] else 0), "ans": [a_ok]}]
+        out.append({"id": "uri/%06d" % i, "backend": "fs" if i % 25 == 0 else "mem", "opt": {}, "steps": steps, "grp": "", "spv": 0,
+                    "meta": {"a": ua, "b": ub, "equiv": x["equiv"]}})
+    base = "http://example.com/a?q=a"
+    for j, (m1, r1, m2, r2) in enumerate(METHOD_SHAPES):
+        for k, (ua, ub, same) in enumerate([(base, base, True), (base, "HTTP://EXAMPLE.com:80/./a?q=%61", True), (base, "http://example.com/a?q=b", False)]):
+            steps = [{"op": "req", "rq": gen.rq(u=0, url=ua, m=m1, range=r1), "ans": [a_ok]},
+                     {"op": "tick", "d": 1},
+                     {"op": "req", "rq": gen.rq(u=0 if same else 1, url=ub, m=m2, range=r2), "ans": [a_ok]},
+                     {"op": "tick", "d": 1},
+                     {"op": "req", "rq": gen.rq(u=0, url=ua), "ans": [a_ok]}]
+            out.append({"id": "urim/%02d-%d" % (j, k), "backend": "mem", "opt": {}, "steps": steps, "grp": "", "spv": 0})
+    return out
+
+
 PLANS["C04"] = Plan("C04", hist_models("vary", "wb"), extra=gen.random_vary, rule=HIST_RULE)
 PLANS["C07"] = Plan("C07", hist_models("inval"), extra=gen.random_inval, rule=HIST_RULE)
 PLANS["C08"] = Plan("C08", hist_models("wb", "vary"), extra=gen.random_vary, rule=HIST_RULE)
 PLANS["C19"] = Plan("C19", hist_models("vary", "inval"), extra=gen.periodic, rule=HIST_RULE)
+def store_models(tier):
+    return [mc("MC_store", "store", Defects="{}", Family=q("store"), Tier=q(tier), Export="TRUE", replay_cap={"quick": 4000})]
+
+
+def bytes_models(tier):
+    return [mc("MC_store", "bytes", Defects="{}", Family=q("bytes"), Tier=q(tier), Export="TRUE")]
+
+
+def bytes_scenarios(rows, tier, seed):
+    out = []
+    for i, r in enumerate(rows):
+        for be in ("mem", "fs", "fsenc"):
+            out.append({"id": "bytes/%05d-%s" % (i, be), "backend": be, "opt": {}, "steps": r["steps"], "grp": "", "spv": 0})
+    return out
+
+
+PLANS["C06"] = Plan("C06", store_models, extra=gen.random_store,
+                    rule="behaviours = the MC_store table (status x response directives x explicit freshness x request shape x "
+                         "complete / failing body, then a probe) exported by TLC and replayed, plus seeded random exchanges over "
+                         "all statuses 100-599 and body streams failing at every byte of a small body; the NothingStored monitor "
+                         "is evaluated by TLC on every write the store receives; non-trivial = a store write or a reply was judged")
+PLANS["C05"] = Plan("C05", bytes_models, extra=gen.random_bytes, rows_to_scenarios=bytes_scenarios, level="model_checking",
+                    rule="configurations = framing (Content-Length, chunked, close-delimited, HTTP/1.0, HTTP/2-shaped, chunked with "
+                         "trailer) x body class (text, empty, CR/LF/NUL and HTTP-like text, 64 KiB and 1 MiB random bytes, seeded "
+                         "small random) x hop-by-hop fields x upstream Age x backend (memory, file system, encrypted file system), "
+                         "enumerated by TLC (MC_store family bytes) with the model saying which origin response each reply must "
+                         "copy; the byte comparison itself is a harness observation asserted by the ByteFaithful monitor; "
+                         "non-trivial = a reply from the store or a forwarded miss was compared",
+                    assumptions=TRUSTED + ["byte equality of bodies and end-to-end header values is computed by the harness "
+                                           "(Go string comparison), not by TLC; the specification decides which response a reply "
+                                           "has to equal and which configurations exist"])
+def spelling_models(tier):
+    cap = {"quick": 700, "thorough": 12000}
+    return [mc("MC_decide", "decideF", replay_cap=cap, Defects="{}", Family=q("F"), Tier=q("quick"), Export="TRUE"),
+            mc("MC_decide", "decideV", replay_cap=cap, Defects="{}", Family=q("V"), Tier=q("quick"), Export="TRUE")]
+
+
+NSPELL = 7
+
+
+def spelling_groups(rows_scn, tier, seed):
+    """each behaviour in its canonical spelling and in every rewritten spelling; the runs of one
+    group must show the same abstract observations (monitor SpellingInvariant)"""
+    out = []
+    for s in rows_scn:
+        for sp in range(NSPELL):
+            steps = []
+            for st in s["steps"]:
+                if st.get("op") != "req":
+                    steps.append(st)
+                    continue
+                st2 = dict(st)
+                st2["rq"] = dict(st["rq"], sp=sp)
+                st2["ans"] = [dict(a, sp=sp) for a in st.get("ans", [])]
+                steps.append(st2)
+            out.append(dict(s, id="%s/sp%d" % (s["id"], sp), steps=steps, grp=s["id"], spv=sp))
+    return out
+
+
+PLANS["C12"] = Plan("C12", spelling_models, post=spelling_groups,
+                    rule="behaviours = a stratified sample of the MC_decide table (rows where directives decide the outcome) plus "
+                         "seeded random histories, each executed in the canonical single-line lower-case spelling and in 6 rewritten "
+                         "spellings (letter case, optional whitespace and empty list elements, quoted-string arguments, one field "
+                         "line per directive, reversed order with unknown extensions incl. a quoted one containing directive-like "
+                         "text, all at once); numbers standing for >= 2^31 are rendered with different huge spellings (up to 10^30) "
+                         "in every run; the canonical run of the real code is the oracle: TLC compares the abstract observation "
+                         "sequences of each group; non-trivial = a rewritten run was compared with its canonical run",
+                    extra=lambda tier, seed: gen.random_decide(tier, seed, n=150 if tier == "quick" else 4000))
+PLANS["C03"] = Plan("C03", uri_models, rows_to_scenarios=uri_scenarios,
+                    rule="pairs (a, b) = every base URI of Uri.tla with up to two components replaced from the component alphabets "
+                         "(scheme / host incl. IP literals / port / path segments incl. escapes, raw non-ASCII and dot segments / "
+                         "query / fragment / userinfo), enumerated and classified (equivalent or not under RFC 3986 6.2.2-6.2.3) by TLC; "
+                         "for each pair a response is stored for render(a) and render(b) is requested; plus method / Range shapes; "
+                         "non-trivial = the second request was answered from the store, or the kernel says it had to be")
 
 
 # ----------------------------------------------------------------------------
@@ -171,7 +292,10 @@ def run_property(prop, tier, seed):
             mcinfo.append({"config": m["tag"], "constants": m["consts"], "distinct_states": stats["distinct"],
                            "states_generated": stats["generated"], "behaviours_exported": len(rows), "wall_s": stats["wall_s"]})
             be = plan.backends or (lambda i: "mem")
-            scn = scenarios_from_rows(rows, m["tag"], be)
+            if plan.rows_to_scenarios:
+                scn = plan.rows_to_scenarios(rows, tier, seed)
+            else:
+                scn = scenarios_from_rows(rows, m["tag"], be)
             cap = m.get("replay_cap", {}).get(tier)
             if cap and len(scn) > cap:
                 scn = stratified(scn, cap, seed)
@@ -180,6 +304,8 @@ def run_property(prop, tier, seed):
         nmodel = len(scenarios)
         if plan.extra:
             scenarios += plan.extra(tier, seed)
+        if plan.post:
+            scenarios = plan.post(scenarios, tier, seed)
         if not scenarios:
             raise Inconclusive("no behaviours to replay")
         byid = {s["id"]: s for s in scenarios}
